@@ -321,8 +321,13 @@ Record ar := mk_ar {
 
 Definition ar_init (pc : pcfg) : ar := mk_ar false false None None false (job_known pc).
 
+(* [cb_raises]: the accept callback raises.  [late_cancel]: ApplyResult._cancel() is called
+   on this handle WHILE _ack runs, after _ack has read the flag and before it answers -- by
+   the accept callback itself, or by another thread while the hooks (timeout hook, accept
+   callback) run.  _ack holds the handle's mutex meanwhile, so _cancel (which takes no lock)
+   is the only parent-side call that can land there. *)
 Inductive pev :=
-| PAck (i : option Z) (t pid : Z) (fd : option Z) (cb_raises : bool)
+| PAck (i : option Z) (t pid : Z) (fd : option Z) (cb_raises : bool) (late_cancel : bool)
 | PReady (i : option Z) (ok : bool) (v : Z)
 | PCancel.
 
@@ -340,15 +345,21 @@ Inductive pout :=
 Definition fd_truthy (fd : option Z) : option Z :=
   match fd with Some z => if z =? 0 then None else Some z | None => None end.
 
-(* ApplyResult._ack under on_ack's `except (KeyError, AttributeError): pass` *)
-Definition p_ack (pc : pcfg) (s : ar) (t pid : Z) (fd : option Z) (cb_raises : bool)
+(* ApplyResult._ack under on_ack's `except (KeyError, AttributeError): pass`.
+   The cancellation flag is read ONCE, on entry: that reading decides between refusing
+   (NACK, no owner, no callback) and accepting (owner, timeouts, accept callback, ACK).  The
+   hooks that run between the decision and the answer are a point at which _cancel() can
+   land ([late_cancel]): it sets the flag and changes nothing else -- the job has been
+   announced as accepted, so it is answered ACK (Proofs/WorkerHandshake.v:
+   p_ack_answer_first_read). *)
+Definition p_ack (pc : pcfg) (s : ar) (t pid : Z) (fd : option Z) (cb_raises late_cancel : bool)
   : ar * list pout :=
   if negb (in_cache s) then (s, [])
   else if cancelled s && has_send_ack pc then
     (mk_ar true true (worker_pid s) (time_accepted s) (is_ready s) (in_cache s),
      match fd_truthy fd with Some f => [OSendAck NACK pid f] | None => [] end)
   else
-    let s' := mk_ar true (cancelled s) (Some pid) (Some t) (is_ready s)
+    let s' := mk_ar true (cancelled s || late_cancel) (Some pid) (Some t) (is_ready s)
                     (if is_ready s then false else in_cache s) in
     let cb := if has_accept_cb pc then [OCbAccept pid t] else [] in
     (* a raising accept callback: `except self._propagate_errors` raises AttributeError
@@ -375,7 +386,7 @@ Definition p_step (pc : pcfg) (s : ar) (e : pev) : ar * list pout :=
   match e with
   | PCancel => (mk_ar (accepted s) true (worker_pid s) (time_accepted s) (is_ready s) (in_cache s),
                 [OCancelled])
-  | PAck _ t pid fd r => let (s', o) := p_ack pc s t pid fd r in (s', o ++ [OAcked])
+  | PAck _ t pid fd r lc => let (s', o) := p_ack pc s t pid fd r lc in (s', o ++ [OAcked])
   | PReady _ ok v => let (s', o) := p_set pc s ok v in (s', o ++ [OReadied])
   end.
 
@@ -390,11 +401,13 @@ Fixpoint p_run (pc : pcfg) (s : ar) (l : list pev) : ar * list pout :=
 Definition worker_pids (s : ar) : list Z :=
   match worker_pid s with Some p => if p =? 0 then [] else [p] | None => [] end.
 
-(* the parent's view of a worker message stream for job J (message -> parent event) *)
-Definition pev_of (J : Z) (m : msg) : list pev :=
+(* the parent's view of a worker message stream for job J (message -> parent event);
+   [r], [lc]: what happens while the ACKs of J are processed (accept callback raises, late
+   cancellation) *)
+Definition pev_of_x (r lc : bool) (J : Z) (m : msg) : list pev :=
   if m_job m =? J then
     match m_pl m with
-    | PAckP t pid fd => if m_ty m =? ACK then [PAck (m_i m) t pid fd false] else []
+    | PAckP t pid fd => if m_ty m =? ACK then [PAck (m_i m) t pid fd r lc] else []
     | PReadyP r _ =>
         if m_ty m =? READY then
           [match r with
@@ -406,6 +419,7 @@ Definition pev_of (J : Z) (m : msg) : list pev :=
         else []
     end
   else [].
+Definition pev_of : Z -> msg -> list pev := pev_of_x false false.
 
 (* ================================================================== *)
 (* The SYN channel as ONE stream shared by the successive jobs of a worker (what a real
@@ -499,7 +513,10 @@ Definition workloop_s (c : cfg) (ins : list (rcv req))
    the handshake (celery's AsynPool) overrides both. *)
 Record hjob := mk_hjob {
   hj_req : req;        (* q_syn = the polls made before the answer becomes readable *)
-  hj_cancel : bool }.  (* cancelled before the parent processes the ACK *)
+  hj_cancel : bool;    (* cancelled before the parent processes the ACK *)
+  hj_raises : bool;    (* the accept callback of this job raises *)
+  hj_late : bool }.    (* _cancel() lands while _ack runs, after its decision (e.g. called by
+                          the accept callback itself) *)
 
 Definition with_syn (q : req) (l : list (rcv Z)) : req :=
   mk_req (q_ty q) (q_job q) (q_i q) (q_t q) (q_beh q) l (q_mem q) (q_term q).
@@ -513,7 +530,7 @@ Definition responses (o : list pout) : list (rcv Z) :=
 Definition syn_answer (pc : pcfg) (delivers : bool) (c : cfg) (h : hjob) : list (rcv Z) :=
   if delivers
   then responses (snd (p_ack pc (ar_at_ack (hj_cancel h)) (q_t (hj_req h)) (eff_pid c)
-                             (synfd c) false))
+                             (synfd c) (hj_raises h) (hj_late h)))
   else [].
 
 Definition hs_req (pc : pcfg) (delivers : bool) (c : cfg) (h : hjob) : req :=
@@ -530,8 +547,10 @@ Definition hs_ins (pc : pcfg) (delivers : bool) (c : cfg) (l : list (rcv hjob)) 
 
 (* the parent's handling of job J: the cancellation (if any) comes first, then the worker's
    messages for J in pipe order *)
+Definition hs_parent_x (pc : pcfg) (J : Z) (cancel r lc : bool) (wl : list ev) : ar * list pout :=
+  p_run pc (ar_init pc) ((if cancel then [PCancel] else []) ++ flat_map (pev_of_x r lc J) (puts wl)).
 Definition hs_parent (pc : pcfg) (J : Z) (cancel : bool) (wl : list ev) : ar * list pout :=
-  p_run pc (ar_init pc) ((if cancel then [PCancel] else []) ++ flat_map (pev_of J) (puts wl)).
+  hs_parent_x pc J cancel false false wl.
 
 (* ================================================================== *)
 (* equality tests for the correspondence check                          *)
@@ -592,8 +611,8 @@ Definition wobs := (list ev * exit * option Z * option bool * Z * Z)%type.
    (pid, status) of the DEATH message, status given to os._exit, the 1 s sleep happened *)
 Definition cobs := (option (Z * Z) * option (Z * Z) * option Z * bool)%type.
 (* implementation's observation of a parent run: outputs, accepted, pid, time, ready,
-   in cache, worker_pids() *)
-Definition pobs := (list pout * bool * option Z * option Z * bool * bool * list Z)%type.
+   in cache, worker_pids(), the cancellation flag *)
+Definition pobs := (list pout * bool * option Z * option Z * bool * bool * list Z * bool)%type.
 
 Inductive case :=
 | WCase (c : cfg) (ins : list (rcv req)) (o : wobs)
@@ -601,7 +620,8 @@ Inductive case :=
 | PCase (pc : pcfg) (evs : list pev) (o : pobs)
 | SCase (c : cfg) (ins : list (rcv req)) (o : wobs)     (* one SYN stream shared by the jobs *)
 | HCase (pc : pcfg) (delivers : bool) (c : cfg) (ins : list (rcv hjob)) (o : wobs)
-        (po : list (Z * bool * pobs)).   (* closed handshake: per job id (cancelled?, parent obs) *)
+        (po : list (Z * (bool * bool * bool) * pobs)).
+        (* closed handshake: per job id ((cancelled?, callback raises?, late cancel?), parent obs) *)
 
 (* 0 = identical.  2 = the property-relevant observable differs: for the worker the
    protocol events (messages written, task executions), how the loop ended, the
@@ -626,11 +646,12 @@ Definition check_worker (c : cfg) (ins : list (rcv req)) (o : wobs) : Z :=
 Definition zz_eqb := pair_eqb Z.eqb Z.eqb.
 
 Definition check_parent (r : ar * list pout) (o : pobs) : Z :=
-  let '(io, iacc, ipid, itime, iready, icache, ipids) := o in
+  let '(io, iacc, ipid, itime, iready, icache, ipids, icanc) := o in
   let (s, o) := r in
   if list_eqb pout_eqb io o && Bool.eqb iacc (accepted s) && oz_eqb ipid (worker_pid s)
      && oz_eqb itime (time_accepted s) && Bool.eqb iready (is_ready s)
      && Bool.eqb icache (in_cache s) && list_eqb Z.eqb ipids (worker_pids s)
+     && Bool.eqb icanc (cancelled s)
   then 0 else 2.
 
 Definition check_case (k : case) : Z :=
@@ -651,7 +672,7 @@ Definition check_case (k : case) : Z :=
     let w := check_worker_against r o in
     if w =? 2 then 2 else
     let wl := fst (fst (fst r)) in
-    if forallb (fun jo => let '(J, cancel, ob) := jo in
-                          check_parent (hs_parent pc J cancel wl) ob =? 0) po
+    if forallb (fun jo => let '(J, (cancel, r, lc), ob) := jo in
+                          check_parent (hs_parent_x pc J cancel r lc wl) ob =? 0) po
     then w else 2
   end.
